@@ -208,6 +208,45 @@ theorem C03_window (s cI aR L τi τr : Nat) (hs : 0 < s) (h1 : cI * s ≤ τi) 
     have h5 : (L + 1) * s = L * s + s := by rw [Nat.add_mul, Nat.one_mul]
     exact ⟨L * s, by omega, by omega, Nat.le_refl _, Or.inl (by omega)⟩
 
+/-- End to end on the wheel's tick clock (tick j at time j·step).  Let a request for an interval `d` in range be
+    invoked at instant `τi` and return at instant `τr`, where — because tick j happens at j·step — the ticks complete at
+    the invocation satisfy `invCls·step ≤ τi ≤ (invCls+1)·step` and the ticks started at the return satisfy
+    `retAdv·step ≤ τr`.  Then the timer becomes ready at `fire = due·step`, and there is an instant τ inside the
+    request with `D − step < fire − τ ≤ D` (additively: `fire ≤ τ + D < fire + step`, and `τ < fire`), or else the request
+    was issued exactly at a tick instant and ordered before that tick, in which case `fire − τi = D − step`. -/
+theorem C03_end_to_end (n step : Nat) (hn : 0 < n) (hs : 0 < step) (acts : List Act) (r : Req)
+    (hr : r ∈ (run fixed (init n step) acts).done) (d : Nat) (hk : r.k = bucketIndex step d)
+    (τi τr : Nat) (h1 : r.invCls * step ≤ τi) (h1' : τi ≤ (r.invCls + 1) * step) (h2 : r.retAdv * step ≤ τr)
+    (hir : τi ≤ τr) :
+    let fire := (run fixed (init n step) acts).due r.chan * step
+    let D := nominal step d
+    (∃ τ, τi ≤ τ ∧ τ ≤ τr ∧ τ < fire ∧ fire ≤ τ + D ∧ τ + D < fire + step) ∨
+    (τi = (r.invCls + 1) * step ∧ fire + step = τi + D) := by
+  intro fire D
+  obtain ⟨L, hL1, hL2, hdue, _⟩ := C03_fire_tick n step hn acts r hr
+  have hfire : fire = fireTime step L (bucketIndex step d) := by
+    show (run fixed (init n step) acts).due r.chan * step = _
+    rw [hdue, hk]; rfl
+  obtain ⟨τ, t1, t2, t3, t4⟩ := C03_window step r.invCls r.retAdv L τi τr hs h1 h1' h2 hir hL1 hL2
+  rcases t4 with t4 | ⟨hLc, htie⟩
+  · left
+    have := C03_timing step d L τ hs t3 t4
+    simp only [] at this
+    exact ⟨τ, t1, t2, by rw [hfire]; exact this.1, by rw [hfire]; exact this.2.1, by rw [hfire]; exact this.2.2⟩
+  · right
+    refine ⟨htie, ?_⟩
+    have := C03_timing_tie step d L
+    rw [hfire, this, htie, hLc]
+
+/-- non-vacuity: the overlapping request of the example above (k = 0, interval 0), invoked at 5 ns and returning at
+    12 ns on a 10 ns wheel, satisfies every hypothesis of `C03_end_to_end` -/
+example :
+    let acts : List Act := [.invoke 7 0, .req 7, .tick, .tick, .tick, .req 7, .req 7, .req 7, .req 7, .req 7]
+    let r : Req := { tid := 7, k := 0, invCls := 0, invAdv := 0, retAdv := 1, retCls := 0, chan := 1 }
+    r ∈ (run fixed (init 3 10) acts).done ∧ r.k = bucketIndex 10 (0 : Nat) ∧
+    r.invCls * 10 ≤ 5 ∧ 5 ≤ (r.invCls + 1) * 10 ∧ r.retAdv * 10 ≤ 12 := by
+  decide
+
 /-! ### the defect of the old code, and why the re-check is needed -/
 
 /-- Old code (slot replaced BEFORE the position advance, no re-check), 3 buckets: `req.loadPos ; tick.loadPos ;
